@@ -244,7 +244,7 @@ def make_model(cfg):
     return m, order
 
 
-def run_l2(m, cfg, prefix, horizon=400):
+def run_l2(m, cfg, prefix, horizon=400, iteration=1):
     """one controlled execution of solve_stochast; returns the scheduler with .out/.error"""
     s = sched.Sched(prefix, horizon=horizon)
     s.out = None
@@ -259,7 +259,7 @@ def run_l2(m, cfg, prefix, horizon=400):
     signal.setitimer(signal.ITIMER_REAL, EXEC_TIMEOUT)
     try:
         with sched.owned(s), contextlib.redirect_stdout(io.StringIO()):
-            s.out = m.solve_stochast(t_arg, 1, exact=exact, full_output=True)
+            s.out = m.solve_stochast(t_arg, iteration, exact=exact, full_output=True)
     except sched.HorizonExceeded as e:
         s.error = ("horizon", str(e))
     except TimeoutError as e:
